@@ -1617,7 +1617,7 @@ class x86allmncs(object):
         addop("dp##PS#",    [0x0F, 0x3A,0x40], noafs, [rmr,u08] , {}                 ,{mmx:True}        , {w8:True},                  )
         addop("dp##PD#",    [0x0F, 0x3A,0x41], noafs, [rmr,u08] , {}                 ,{mmx:True}        , {w8:True},                  )
         addop("m##PS#adbw", [0x0F, 0x3A,0x42], noafs, [rmr,u08] , {}                 ,{mmx:True}        , {w8:True},                  )
-        addop("#p#clmumqdq",[0x0F, 0x3A,0x44], noafs, [rmr,u08] , {}                 ,{mmx:True}        , {w8:True},                  )
+        addop("#p#clmulqdq",[0x0F, 0x3A,0x44], noafs, [rmr,u08] , {}                 ,{mmx:True}        , {w8:True},                  )
         addop("#p#cmpestrm",[0x0F, 0x3A,0x60], noafs, [rmr,u08] , {}                 ,{mmx:True}        , {w8:True},                  )
         addop("#p#cmpestri",[0x0F, 0x3A,0x61], noafs, [rmr,u08] , {}                 ,{mmx:True}        , {w8:True},                  )
         addop("#p#cmpistrm",[0x0F, 0x3A,0x62], noafs, [rmr,u08] , {}                 ,{mmx:True}        , {w8:True},                  )
